@@ -176,6 +176,8 @@ def depth1(seed_name):
             seed = S[base]
             if fam.startswith('focus:'):
                 states = U.focus2(seed, fam.split(':')[1])
+            elif fam.startswith('lineruns'):
+                states = U.line_runs(seed, 0, 1, int(fam[-1]))
             elif fam.startswith('cellruns'):
                 states = U.cell_runs(seed, len(seed['cells']), int(fam[-1]))
             else:
@@ -238,6 +240,8 @@ def config_classes():
 def runs_plan(tier):
     focus = [('S45#focus:%s' % f, (KEY_CONFIGS[0], KEY_CONFIGS[4]) if tier == 'quick' else tuple(KEY_CONFIGS)) for f in ('outputs', 'source', 'meta', 'attachments')]
     focus.append(('Sprev#focus:prevmeta', (KEY_CONFIGS[0], KEY_CONFIGS[4], KEY_CONFIGS[2])))
+    focus += [('S45#focus:cellmix0', (KEY_CONFIGS[0], KEY_CONFIGS[4])), ('S45#focus:cellmix2', (KEY_CONFIGS[0], KEY_CONFIGS[4])),
+              ('S45#lineruns3', (KEY_CONFIGS[4], KEY_CONFIGS[2], KEY_CONFIGS[0]))]
     if tier == 'quick':
         return focus + [('S45#cellruns3', (KEY_CONFIGS[0], KEY_CONFIGS[4])), ('S45#outruns2', (KEY_CONFIGS[0], KEY_CONFIGS[4], KEY_CONFIGS[6]))]
     focus += [('S44#focus:%s' % f, (KEY_CONFIGS[0], KEY_CONFIGS[4])) for f in ('outputs', 'source', 'meta', 'attachments')]
